@@ -12,7 +12,9 @@ from gen import A, C, N, call, fcall, lam, mcall
 
 ID = "C02"
 TAG, EXTRACT, DRIVER = sc.TAG, sc.EXTRACT, sc.DRIVER
-COQ_FILES = ["FA/Proofs/SimplifyFacts.v", "FA/Proofs/EvalAgree.v", "FA/Proofs/SimplifySem.v", "FA/Proofs/RenameSem.v", "FA/Properties/C02.v"]
+COQ_FILES = ["FA/Proofs/SimplifyFacts.v", "FA/Proofs/EvalAgree.v", "FA/Proofs/SimplifySem.v", "FA/Proofs/RenameSem.v", "FA/Proofs/EvalRel.v",
+             "FA/Proofs/SimplifyTotal.v", "FA/Proofs/SimplifyInv.v", "FA/Proofs/BindArgs.v", "FA/Proofs/SimplifyRules.v",
+             "FA/Proofs/SimplifySound.v", "FA/Properties/C02.v"]
 
 LEVEL = ("Coq theorems about the executable model `simp` of simplify_chained_calls (Model/Simplify.v): every rewrite rule is "
          "semantically sound for all lambdas, all backends and all datasets (fusion rules, First push-through, literal projection), "
